@@ -291,7 +291,36 @@ def stream_status(raw: bytes, coding: str):
     return worst, strict, data
 
 
-DMG_KIND = {"none": "none", "cut": "cut", "badsize": "badsize", "negsize": "negsize", "emptysize": "emptysize",
+HEX = b"0123456789abcdefABCDEF"
+
+
+def size_line_class(wire: bytes, start: int, orig_line: bytes) -> str:
+    """Strict RFC 9112 reading of the chunk-size line that starts at `start` in the damaged wire (independent of
+    urllib3 / http.client): same | lenient | ext | othersize | malformed  (spec/BodyRules.tla, fact `line`)."""
+    nl = wire.find(b"\n", start)
+    if nl < 0:
+        return "malformed"
+    line = wire[start:nl + 1]
+    bare_lf = not line.endswith(b"\r\n")
+    content = line[:-1] if bare_lf else line[:-2]
+    if b"\r" in content:
+        return "malformed"                       # a CR that is not part of the terminator: the LF was destroyed and the
+                                                 # "line" now runs into the chunk data
+    sizepart, sep, ext = content.partition(b";")
+    s = sizepart.strip(b" \t")
+    if not s or any(c not in HEX for c in s):
+        return "malformed"                       # no size, sign, junk after / inside the digits, CR without LF, ...
+    osize, _, oext = orig_line[:-2].partition(b";")
+    if int(s, 16) != int(osize, 16):
+        return "othersize"                       # well-formed line announcing another size
+    if s != sizepart or bare_lf:
+        return "lenient"                         # SP / HTAB around the size, bare LF: recipients may tolerate
+    if (sep + ext) != (orig_line[:-2][len(osize):]):
+        return "ext"                             # only the extension changed: recipients ignore extensions
+    return "same"
+
+
+DMG_KIND = {"none": "none", "cut": "cut", "junksize": "junksize", "badsize": "badsize", "negsize": "negsize", "emptysize": "emptysize",
             "corruptcode": "corrupt", "trunccode": "none"}
 
 
@@ -345,7 +374,8 @@ def build(case: dict) -> dict:
     head = ("HTTP/1.1 200 OK\r\n" + "".join(f"{k}: {v}\r\n" for k, v in hs) + "\r\n").encode("latin-1")
     res = {"payload": pl, "enc": enc, "raw": raw, "ce": ce, "bounds": bounds, "layers": layers, "head": head,
            "wire": wire, "layout": lay, "close": framing == "close", "cut": None, "codepos": codepos,
-           "garbled": kind in ("badsize", "negsize", "emptysize", "corruptcode", "trunccode")}
+           "garbled": kind in ("badsize", "negsize", "emptysize", "corruptcode", "trunccode", "sizebyte")}
+    linecls = "none"
     carried = raw                                # content bytes the (damaged) framing still carries
     if kind == "cut":
         at = dmg["at"]
@@ -373,6 +403,19 @@ def build(case: dict) -> dict:
             new = bytes(line[ndig:])
         res["wire"] = wire[:ent[1]] + new + wire[ent[2]:]
         res["bad_chunk"] = ent[3]
+    elif kind == "sizebyte":
+        # one byte of one chunk-size line (index len(sizes) = the terminating zero-size chunk line) replaced
+        if framing != "chunked":
+            raise GenError("chunk-size corruption needs chunked framing")
+        lines = [x for x in lay if x[0] in ("size", "last")]
+        ent = lines[dmg["line"] % len(lines)]
+        pos = ent[1] + dmg["pos"] % (ent[2] - ent[1])
+        rep = dmg["byte"] if isinstance(dmg["byte"], int) else ord(dmg["byte"])
+        if wire[pos] == rep:
+            raise GenError("replacement equals the original byte")
+        res["wire"] = wire[:pos] + bytes([rep]) + wire[pos + 1:]
+        linecls = size_line_class(res["wire"], ent[1], wire[ent[1]:ent[2]])
+        res["bad_chunk"] = ent[3]
     if decode_on:
         indep, strict, out = stream_status(carried, case["coding"])
         expected = pl
@@ -381,9 +424,14 @@ def build(case: dict) -> dict:
     else:
         indep, strict, expected = "ok", False, raw
     res["expected"] = expected
+    fdmg = DMG_KIND.get(kind, kind)
+    if kind == "sizebyte" and linecls == "same":
+        fdmg, linecls = "none", "none"           # e.g. a token character of an extension replaced by another one
     res["facts"] = {"framing": framing, "strict": bool(strict), "decoding": bool(decode_on and ce),
-                    "dmg": DMG_KIND[kind], "indep": indep, "total": len(expected),
-                    "checkbytes": kind != "corruptcode"}
+                    "dmg": fdmg, "indep": indep, "total": len(expected),
+                    # after a malformed / re-sized line the parsers are out of step with the data: what they hand out before
+                    # they notice is not judged, only that they never end normally
+                    "checkbytes": kind != "corruptcode" and linecls not in ("othersize", "malformed"), "line": linecls}
     res["layout3"] = [[k, a, b] for k, a, b, _ in lay]
     res["cutat"] = res["cut"] if res["cut"] is not None else 0
     return res
